@@ -11,11 +11,14 @@ if [ -z "$R" ]; then R=$(mktemp -d /tmp/selftest.XXXXXX); own=1; git -C /repo ar
 # uncommitted contract files of /repo are part of the tree under test
 ( cd /repo && git ls-files -m -o --exclude-standard | grep 'verif_' | while read f; do mkdir -p "$R/$(dirname $f)"; cp "$f" "$R/$f"; done )
 cp "$BIN" "$R/.vcgo"; BIN="$R/.vcgo"
+# the ledger and the known findings as they are now (later edits of /verif do not disturb this run)
+mkdir -p "$R/.verif"; cp "$V/obligations.lock.json" "$V/known_findings.json" "$V/MANIFEST.json" "$R/.verif/"
+VS="$R/.verif"
 pass=0; fail=0
 # prime the query cache on the unchanged copy: afterwards only the queries a change affects are solved
 if [ -z "${NOPRIME:-}" ]; then
   for p in $(python3 -c "import json; print(' '.join(c['property_id'] for c in json.load(open('$V/MANIFEST.json'))['checks']))"); do
-    "$BIN" check -repo "$R" -verif "$V" -prop $p -scratch "$R/.scratch" -cache "$R/.cache" 2>&1 | grep -E "obligations,|^VIOLATION" | sed 's/^/prime: /'
+    "$BIN" check -repo "$R" -verif "$VS" -prop $p -scratch "$R/.scratch" -cache "$R/.cache" 2>&1 | grep -E "obligations,|^VIOLATION" | sed 's/^/prime: /'
   done
 fi
 ONLY=${2:-}
@@ -26,7 +29,7 @@ run() { # name patch props...
   ( cd "$R" && patch -p1 -s < "$patch" )
   caught=""
   for p in "$@"; do
-    out=$("$BIN" check -repo "$R" -verif "$V" -prop $p -scratch "$R/.scratch" -cache "$R/.cache" 2>&1)
+    out=$("$BIN" check -repo "$R" -verif "$VS" -prop $p -scratch "$R/.scratch" -cache "$R/.cache" 2>&1)
     if echo "$out" | grep -q "^VIOLATION property=$p"; then caught="$caught $p:$(echo "$out" | grep -m1 '^FAILED' | sed 's/FAILED obligation //' | cut -c1-110)"; fi
   done
   ( cd "$R" && patch -p1 -R -s < "$patch" )
